@@ -51,7 +51,8 @@ fn sx_log(log: &[Event]) -> String {
 
 /// random tree in low dimension: many infeasible paths arise by themselves; duplicate / parallel predicates planted
 fn gen_elim_tree(r: &mut Rng, total: bool) -> AffTree<2> {
-    let n = 1 + r.below(3);
+    // (input dimension 0 once in a while: every predicate is a constant, every LP has no variables)
+    let n = if r.chance(1, 16) { 0 } else { 1 + r.below(3) };
     let m = 1 + r.below(2);
     let cfg = TreeCfg {
         depth: 1 + r.below(4),
@@ -127,6 +128,21 @@ fn gen_pipeline(r: &mut Rng) -> AffTree<2> {
             if catch(AssertUnwindSafe(|| t.infeasible_elimination())).is_err() {
                 return before_elim;
             }
+            // nodes may hold several witnesses (the field is public): add further points of their own region
+            if r.chance(1, 2) {
+                enrich_witnesses(r, &mut t);
+            }
+            // dropping an input axis keeps the tree total and must reset every cached state
+            if t.in_dim() >= 2 && r.chance(1, 5) {
+                let n = t.in_dim();
+                let drop = r.below(n);
+                let mask = Array1::from_iter((0..n).map(|i| i != drop));
+                let before = t.clone();
+                match catch(AssertUnwindSafe(|| t.remove_axes(&mask))) {
+                    Ok(Ok(())) => {}
+                    _ => return before,
+                }
+            }
         }
         if r.chance(1, 3) {
             let w2 = 1 + r.below(3);
@@ -139,6 +155,43 @@ fn gen_pipeline(r: &mut Rng) -> AffTree<2> {
         }
     }
     t
+}
+
+/// appends to every FeasibleWitness list further lattice points that satisfy all path conditions of the node exactly
+fn enrich_witnesses(r: &mut Rng, t: &mut AffTree<2>) {
+    use affinitree::pwl::node::NodeState;
+    let n = t.in_dim();
+    let idxs: Vec<usize> = t.tree.node_indices().collect();
+    for i in idxs {
+        if !matches!(t.tree.node_value(i).unwrap().state, NodeState::FeasibleWitness(_)) {
+            continue;
+        }
+        let path = match t.tree.path_to_node(i) {
+            Ok(p) => p,
+            Err(_) => continue,
+        };
+        let rows: Vec<(Array1<f64>, f64, bool)> = path
+            .iter()
+            .map(|(nd, label)| {
+                let a = &t.tree.node_value(*nd).unwrap().aff;
+                (a.mat.row(0).to_owned(), a.bias[0], *label == 1)
+            })
+            .collect();
+        let mut extra = Vec::new();
+        for _ in 0..6 {
+            let x = gen_point(r, n);
+            let ok = rows.iter().all(|(a, b, pos)| {
+                let v = a.dot(&x);
+                if *pos { v <= *b } else { v >= *b }
+            });
+            if ok {
+                extra.push(x);
+            }
+        }
+        if let NodeState::FeasibleWitness(ws) = &mut t.tree.node_value_mut(i).unwrap().state {
+            ws.extend(extra);
+        }
+    }
 }
 
 fn run_elim(t: &AffTree<2>, plan: HashMap<usize, Fault>) -> (Result<(AffTree<2>, String), String>, Vec<Event>) {
@@ -164,8 +217,18 @@ fn run_elim(t: &AffTree<2>, plan: HashMap<usize, Fault>) -> (Result<(AffTree<2>,
 }
 
 fn case_elim(r: &mut Rng, id: usize, total_only: bool, out: &mut String) {
+    // C06 only: one case in eight is a freshly distilled network (no argmax / class head): the builder eliminates after
+    // every activation, so the tree it returns must already be a fixed point of the elimination
+    if total_only && r.chance(1, 8) {
+        if let Some(t) = gen_distilled(r) {
+            return case_elim_on(r, id, "distilled", t, out);
+        }
+    }
     let pipeline = r.chance(2, 5);
     let t = if pipeline { gen_pipeline(r) } else { gen_elim_tree(r, total_only) };
+    case_elim_on(r, id, if pipeline { "pipeline" } else { "random" }, t, out)
+}
+fn case_elim_on(r: &mut Rng, id: usize, gen: &str, t: AffTree<2>, out: &mut String) {
     let before = sx_tree(&t);
     let (res, log) = run_elim(&t, HashMap::new());
     match res {
@@ -176,27 +239,41 @@ fn case_elim(r: &mut Rng, id: usize, total_only: bool, out: &mut String) {
                 Err(_) => "panic -".to_string(),
             };
             let pts = sx_points(r, &h, 4);
-            out.push_str(&format!(
-                "(case {} elim {} {} ok {} {} {} {} {})\n",
-                id,
-                if pipeline { "pipeline" } else { "random" },
-                before,
-                sx_tree(&h),
-                counter,
-                sx_log(&log),
-                second,
-                pts
-            ));
+            out.push_str(&format!("(case {} elim {} {} ok {} {} {} {} {})\n", id, gen, before, sx_tree(&h), counter, sx_log(&log), second, pts));
         }
         Err(_) => {
-            out.push_str(&format!("(case {} elim {} {} panic - - {} - - (pts ))\n", id, if pipeline { "pipeline" } else { "random" }, before, sx_log(&log)));
+            out.push_str(&format!("(case {} elim {} {} panic - - {} - - (pts ))\n", id, gen, before, sx_log(&log)));
         }
     }
 }
+/// a small network distilled by the library itself (activations only, every kind)
+fn gen_distilled(r: &mut Rng) -> Option<AffTree<2>> {
+    use affinitree::distill::builder::{afftree_from_layers, Layer};
+    let n = 1 + r.below(2);
+    let mut layers: Vec<Layer> = Vec::new();
+    let mut cur = n;
+    for _ in 0..(1 + r.below(2)) {
+        let w = 1 + r.below(3);
+        layers.push(Layer::Linear(gen_aff(r, w, cur, 4)));
+        cur = w;
+        for i in 0..cur {
+            if r.chance(2, 3) {
+                layers.push(match r.below(5) {
+                    0 => Layer::LeakyReLU(i, 0.5),
+                    1 => Layer::HardTanh(i),
+                    2 => Layer::HardSigmoid(i),
+                    _ => Layer::ReLU(i),
+                });
+            }
+        }
+    }
+    if r.chance(1, 3) {
+        let w = 1 + r.below(2);
+        layers.push(Layer::Linear(gen_aff(r, w, cur, 4)));
+    }
+    catch(AssertUnwindSafe(|| afftree_from_layers(n, &layers, None))).ok()
+}
 
-/// a partial right operand on R^m whose decisions test single coordinates against small thresholds and often have
-/// exactly ONE child (on label 0 or on label 1), nested up to depth 3: grafted below a terminal whose path already
-/// bounds that coordinate, the only child of such a decision is frequently infeasible (last-remaining-child rule)
 fn gen_single_child_tree(r: &mut Rng, m: usize, k: usize) -> AffTree<2> {
     fn axis_dec(r: &mut Rng, m: usize) -> AffFunc {
         let mut a = Array2::<f64>::zeros((1, m));
@@ -305,8 +382,10 @@ fn fault_of(kind: usize) -> Fault {
         1 => Fault::Unbounded,
         2 => Fault::Perturbed(0.001953125),
         3 => Fault::FarOff,
-        // a "point" that is no point at all: it lies in no polytope
-        _ => Fault::Perturbed(f64::NAN),
+        // "points" that are no points at all: they lie in no polytope
+        4 => Fault::Perturbed(f64::NAN),
+        5 => Fault::Perturbed(f64::INFINITY),
+        _ => Fault::Perturbed(f64::NEG_INFINITY),
     }
 }
 
@@ -326,7 +405,7 @@ fn case_fault(r: &mut Rng, id: usize, thorough: bool, out: &mut String) {
         let mut sub = 0;
         let mut plans: Vec<HashMap<usize, Fault>> = Vec::new();
         for pos in 0..ncalls.min(12) {
-            for kind in 0..5 {
+            for kind in 0..7 {
                 let mut p = HashMap::new();
                 p.insert(pos, fault_of(kind));
                 plans.push(p);
@@ -350,7 +429,7 @@ fn case_fault(r: &mut Rng, id: usize, thorough: bool, out: &mut String) {
                 let mut p = HashMap::new();
                 for pos in 0..ncalls {
                     if r.chance(1, 3) {
-                        p.insert(pos, fault_of(r.below(5)));
+                        p.insert(pos, fault_of(r.below(7)));
                     }
                 }
                 plans.push(p);
@@ -382,7 +461,7 @@ fn case_fault(r: &mut Rng, id: usize, thorough: bool, out: &mut String) {
         let ncalls = base_log.iter().filter(|e| matches!(e, Event::Lp { .. })).count();
         let mut plans: Vec<HashMap<usize, Fault>> = Vec::new();
         for pos in 0..ncalls.min(12) {
-            for kind in 0..5 {
+            for kind in 0..7 {
                 let mut p = HashMap::new();
                 p.insert(pos, fault_of(kind));
                 plans.push(p);
@@ -404,8 +483,8 @@ fn case_fault(r: &mut Rng, id: usize, thorough: bool, out: &mut String) {
             for a in 0..ncalls.min(6) {
                 for b in (a + 1)..ncalls.min(6) {
                     let mut p = HashMap::new();
-                    p.insert(a, fault_of(r.below(5)));
-                    p.insert(b, fault_of(r.below(5)));
+                    p.insert(a, fault_of(r.below(7)));
+                    p.insert(b, fault_of(r.below(7)));
                     plans.push(p);
                 }
             }
@@ -413,7 +492,7 @@ fn case_fault(r: &mut Rng, id: usize, thorough: bool, out: &mut String) {
                 let mut p = HashMap::new();
                 for pos in 0..ncalls {
                     if r.chance(1, 3) {
-                        p.insert(pos, fault_of(r.below(5)));
+                        p.insert(pos, fault_of(r.below(7)));
                     }
                 }
                 plans.push(p);
@@ -488,6 +567,12 @@ fn case_mirror(r: &mut Rng, id: usize, out: &mut String) {
         for i in 0..n {
             pts[[i, c]] = (r.range(-12, 12) as f64) / 2.0 * scale;
         }
+    }
+    // start points that are no points, or so large that the steps overflow: nothing that is returned may be outside
+    if r.chance(1, 6) {
+        let c = r.below(npts);
+        let i = r.below(n);
+        pts[[i, c]] = [f64::NAN, f64::INFINITY, f64::NEG_INFINITY, 1.7e308, -1.7e308][r.below(5)];
     }
     let iters = [1usize, 8, 20][r.below(3)];
     let res = catch(AssertUnwindSafe(|| AffTree::<2>::mirror_points(&poly, &pts, iters)));
